@@ -20,8 +20,19 @@
 (*   HeadEvent(R)       HandleHeadEvent; R = epochs whose attester duties it refreshes (reorg):       *)
 (*                    cancel their jobs, fetch, reschedule, resubscribe; subscription and           *)
 (*                    (with inclusion verification) slot data housekeeping                          *)
-(*   Resched(E)       the second half of a refresh whose duty request the node answered late: the   *)
-(*                    jobs of the epochs E are set up (HeadEvent then was the cancel half only)     *)
+(*   PassEnd(w)       SCHEDULING PASSES ARE PROCESSES.  Every scheduleAttestations(e) call - the    *)
+(*                    two of start-up, the one of "Prepare for epoch", the one of each refresh -    *)
+(*                    first asks the node for the duties (the request has DURATION: passes = the    *)
+(*                    passes whose request is with the node, [e, n]), then makes the note for each  *)
+(*                    slot and asks the scheduler for its job (answer: ok, or "exists" when another *)
+(*                    pass for the same epoch has set the job up meanwhile).  Start / Prepare /     *)
+(*                    HeadEvent take W = the passes they start and the node keeps back; PassEnd(w)  *)
+(*                    is the node's answer to pass w: its notes and jobs appear then.  Passes for   *)
+(*                    ONE epoch OVERLAP: the start-up or Prepare pass still waiting when a reorg    *)
+(*                    refresh of that epoch arrives (which cancels, and starts its own pass), two   *)
+(*                    refreshes one after the other; they end in any order.  PendingExact is judged *)
+(*                    in every state of every overlap.  (Resched(E) = the former name: one pass per *)
+(*                    epoch.)                                                                       *)
 (*   AttStart(s)      the attestation job of slot s starts: leaves the table, attester notes epoch  *)
 (*   AttEnd(s, ok)    AttestAndScheduleAggregate returns: mark cleared, attester housekeeping       *)
 (*                    Attestation jobs have DURATION: between AttStart(s) and AttEnd(s) any other    *)
@@ -60,7 +71,10 @@
 (* housekeeping design ("design": window pruning, mark cleared with the withdrawn job - the         *)
 (* repaired code; "pinned": the code as found; "clearall": the refresh clears the mark of EVERY     *)
 (* slot of the epoch, whether or not its CancelJob succeeded - a self-check: it must violate        *)
-(* PendingExact, and only in states with a running job; "sweep": head roots, builder bids and       *)
+(* PendingExact, and only in states with a running job; "schederr": a scheduling pass whose          *)
+(* ScheduleJob is answered "exists" takes its note back - a third self-check: right as long as the  *)
+(* passes for one epoch never overlap, it must violate PendingExact once they do; "sweep": head     *)
+(* roots, builder bids and                                                                          *)
 (* subscription infos are pruned with a CARRIED LOW-WATER MARK that assumes entries arrive in key   *)
 (* order - a second self-check: right whenever calls complete in slot order, it must violate        *)
 (* RootsBounded / BidsBounded / SubsBounded once they do not); the exhaustive runs use it to choose *)
@@ -73,7 +87,7 @@ CONSTANTS P,         \* slots per epoch
                      \* at most G consecutive epochs in which attestations ran but none succeeded
           StartSlots,\* slots at which the service may be started
           MaxSlot,   \* last slot explored
-          Mode,      \* "design" | "pinned" | "clearall" | "sweep" (which concrete housekeeping Design(...) is)
+          Mode,      \* "design" | "pinned" | "clearall" | "schederr" | "sweep" (which concrete housekeeping Design(...) is)
           RecMax, RecKeep,      \* slotDataRecords clean-up thresholds of the code (100, 32)
           RootKeep, BidKeep,    \* windows (slots) of the design's prune-on-insert
           KRoots, KBids,        \* bounds (cardinalities) the property is checked with
@@ -85,6 +99,9 @@ CONSTANTS P,         \* slots per epoch
           SubLates, AttLates,   \* (0 = within its slot), likewise the subscription a Prepare step starts and
                                 \* (beyond "into the next slot of its epoch") an attestation job
           MaxHeld,              \* at most MaxHeld requests of one kind kept back beyond their slot at a time
+          MaxPasses,            \* scheduling passes for ONE epoch under way at a time (1 = they never overlap)
+          MaxHeads,             \* head events per slot
+          HoldKinds,            \* whose scheduling pass the node may keep back: subset of {"start", "prepare", "refresh"}
           Fams                  \* families explored: "att" (duties, marks, attester, subscriptions), "sync" (sync
                                 \* committee maps), "bids" (block relay), "all" (everything together; simulation)
 
@@ -93,10 +110,12 @@ VARIABLES now, up, verify, aggmode,
           msgrun,   \* slots whose sync committee message job is running (head root request with the node)
           aucrun,   \* slots whose block auction is running (with the relays)
           subrun,   \* epochs whose beacon committee subscription is under way (kept back by the node)
+          passes,   \* scheduling passes (scheduleAttestations calls) whose duties request is with the node:
+                    \* [e |-> epoch, n |-> number among the passes of that epoch]
           env       \* scheduling scaffold of the exhaustive / simulated runs (not part of the bookkeeping)
 
 maps == <<attjobs, prepjobs, pend, attested, subs, roots, records, bids, njobs>>
-calls == <<msgrun, aucrun, subrun>>       \* calls under way other than attestation jobs
+calls == <<msgrun, aucrun, subrun, passes>>       \* calls under way other than attestation jobs
 vars == <<now, up, verify, aggmode, running, calls, maps, env>>
 
 Epoch(s) == s \div P
@@ -141,12 +160,22 @@ Future(R) == {s \in SlotsOfAll(R) : s >= now}
 -----------------------------------------------------------------------------
 (* Actions.  F = epochs whose attester duties the step fetched (and subscribed to).                *)
 
-Start(F, q) ==
+\* W = the scheduling passes the step starts and the node keeps back (one per epoch at most, for epochs whose
+\* duties the step asked for): their notes and jobs appear with PassEnd, not with this step.
+PEpochs(W) == {w.e : w \in W}
+StartsPasses(W, F) ==
+    /\ W \cap passes = {}
+    /\ PEpochs(W) \subseteq F
+    /\ \A w1, w2 \in W : w1.e = w2.e => w1 = w2
+    /\ passes' = passes \cup W
+
+Start(F, W, q) ==
     /\ ~up
     /\ up' = TRUE
-    /\ Allowed(q, Future(F), {}, {}, {}, {}, F, {}, {}, {})
+    /\ StartsPasses(W, F)
+    /\ Allowed(q, Future(F \ PEpochs(W)), {}, {}, {}, {}, F, {}, {}, {})
     /\ Apply(q)
-    /\ UNCHANGED <<now, verify, aggmode, running, calls>>
+    /\ UNCHANGED <<now, verify, aggmode, running, msgrun, aucrun, subrun>>
 
 Tick(q) ==
     /\ up
@@ -156,14 +185,15 @@ Tick(q) ==
 
 \* fired = FALSE: there was no such job (nothing happens).  H = the epochs (of F) whose beacon committee
 \* subscription the node keeps back: their subscription info appears with SubEnd, not with this step.
-Prepare(e, fired, F, H, q) ==
+Prepare(e, fired, F, H, W, q) ==
     /\ up
     /\ fired <=> e \in prepjobs
     /\ IF fired
          THEN /\ F \subseteq {e} /\ H \subseteq F
               /\ e \notin q.prepjobs
-              /\ Allowed(q, Future(F), {}, {}, {e}, {}, F \ H, {}, {}, {})
-         ELSE H = {} /\ Allowed(q, {}, {}, {}, {}, {}, {}, {}, {}, {})
+              /\ StartsPasses(W, F)
+              /\ Allowed(q, Future(F \ PEpochs(W)), {}, {}, {e}, {}, F \ H, {}, {}, {})
+         ELSE H = {} /\ W = {} /\ UNCHANGED passes /\ Allowed(q, {}, {}, {}, {}, {}, {}, {}, {}, {})
     /\ Apply(q)
     /\ subrun' = subrun \cup H
     /\ UNCHANGED <<now, up, verify, aggmode, running, msgrun, aucrun>>
@@ -175,22 +205,29 @@ SubEnd(e, q) ==
     /\ subrun' = subrun \ {e}
     /\ Allowed(q, {}, {}, {}, {}, {}, {e}, {}, {}, {})
     /\ Apply(q)
-    /\ UNCHANGED <<now, up, verify, aggmode, running, msgrun, aucrun>>
+    /\ UNCHANGED <<now, up, verify, aggmode, running, msgrun, aucrun, passes>>
 
-HeadEvent(F, q) ==
+\* F = the epochs the head event refreshes: the jobs of F may be withdrawn (cancel loop), each refresh starts
+\* a scheduling pass; W = those the node keeps back (for them the head event is the cancel half only).  Passes
+\* for an epoch of F that are under way already (an earlier refresh, the start-up or Prepare pass) stay so.
+HeadEvent(F, W, q) ==
     /\ up
     /\ F \subseteq {Epoch(now), Epoch(now) + 1}
-    /\ Allowed(q, Future(F), SlotsOfAll(F), {}, {}, {}, F, {}, {}, {})
+    /\ StartsPasses(W, F)
+    /\ Allowed(q, Future(F \ PEpochs(W)), SlotsOfAll(F), {}, {}, {}, F, {}, {}, {})
     /\ Apply(q)
-    /\ UNCHANGED <<now, up, verify, aggmode, running, calls>>
+    /\ UNCHANGED <<now, up, verify, aggmode, running, msgrun, aucrun, subrun>>
 
-\* The node answered the refresh's duty request late: HeadEvent(F) was the cancel half (the jobs of F
-\* withdrawn, the request made), this is the reschedule half for the epochs E.
-Resched(E, q) ==
+\* The node answers the duties request of pass w: the pass makes its notes and asks the scheduler for its jobs
+\* (each answered ok or exists - the job is then in the table either way).  Whatever other passes for w.e are
+\* under way, have ended, or whichever refresh has cancelled jobs since the pass began.
+PassEnd(w, q) ==
     /\ up
-    /\ Allowed(q, Future(E), {}, {}, {}, {}, E, {}, {}, {})
+    /\ w \in passes
+    /\ passes' = passes \ {w}
+    /\ Allowed(q, Future({w.e}), {}, {}, {}, {}, {w.e}, {}, {}, {})
     /\ Apply(q)
-    /\ UNCHANGED <<now, up, verify, aggmode, running, calls>>
+    /\ UNCHANGED <<now, up, verify, aggmode, running, msgrun, aucrun, subrun>>
 
 \* HasPendingAttestations is consulted (main.go does on SIGTERM): nothing may appear
 Probe(q) ==
@@ -235,7 +272,7 @@ MsgStart(s, q) ==
     /\ msgrun' = msgrun \cup {s}
     /\ Allowed(q, {}, {}, {}, {}, {}, {}, {}, {}, {})
     /\ Apply(q)
-    /\ UNCHANGED <<now, up, verify, aggmode, running, aucrun, subrun>>
+    /\ UNCHANGED <<now, up, verify, aggmode, running, aucrun, subrun, passes>>
 
 MsgEnd(s, q) ==
     /\ up
@@ -243,7 +280,7 @@ MsgEnd(s, q) ==
     /\ msgrun' = msgrun \ {s}
     /\ Allowed(q, {}, {}, {}, {}, {}, {}, {s}, {s}, {})
     /\ Apply(q)
-    /\ UNCHANGED <<now, up, verify, aggmode, running, aucrun, subrun>>
+    /\ UNCHANGED <<now, up, verify, aggmode, running, aucrun, subrun, passes>>
 
 \* the whole job at once (the node answered before anything else happened; or there was no such job)
 SyncMsg(s, fired, q) ==
@@ -266,14 +303,14 @@ AucStart(s, q) ==
     /\ aucrun' = aucrun \cup {s}
     /\ Allowed(q, {}, {}, {}, {}, {}, {}, {}, {}, {})
     /\ Apply(q)
-    /\ UNCHANGED <<now, up, verify, aggmode, running, msgrun, subrun>>
+    /\ UNCHANGED <<now, up, verify, aggmode, running, msgrun, subrun, passes>>
 
 AucEnd(s, q) ==
     /\ s \in aucrun
     /\ aucrun' = aucrun \ {s}
     /\ Allowed(q, {}, {}, {}, {}, {}, {}, {}, {}, {s})
     /\ Apply(q)
-    /\ UNCHANGED <<now, up, verify, aggmode, running, msgrun, subrun>>
+    /\ UNCHANGED <<now, up, verify, aggmode, running, msgrun, subrun, passes>>
 
 Auction(s, q) ==
     /\ Allowed(q, {}, {}, {}, {}, {}, {}, {}, {}, {s})
@@ -293,6 +330,7 @@ TypeOK ==
     /\ now \in Nat /\ up \in BOOLEAN /\ verify \in BOOLEAN
     /\ njobs \in Nat
     /\ running \subseteq Nat /\ msgrun \subseteq Nat /\ aucrun \subseteq Nat /\ subrun \subseteq Nat
+    /\ \A w \in passes : w.e \in Nat /\ w.n \in Nat
 
 \* C20: "the bookkeeping Vouch keeps per slot, epoch or job ... do[es] not grow beyond what a fixed
 \* window of recent slots needs".  Invariants of EVERY state: also of those in which calls of several slots
@@ -359,17 +397,19 @@ Unmark(p, cancelled, F) ==
 Count(a, pj) == Cardinality(a) + Cardinality(pj)
 
 \* D: epoch -> set of slots with a duty (the node's reply)
-DStart(D) ==
+\* split: the node keeps the duties requests of both start-up passes back (PassEnd delivers them)
+DStart(D, split) ==
     LET e == Epoch(now)
-        a == {s \in D[e] : s > now} \cup D[e + 1]
+        a == IF split THEN {} ELSE {s \in D[e] : s > now} \cup D[e + 1]
     IN Q(a, {}, a, {}, {e, e + 1}, {}, {}, {}, Count(a, {}))
 
 DTick ==
     LET pj == prepjobs \cup {Epoch(now) + 1}
     IN [Cur EXCEPT !.prepjobs = pj, !.njobs = Count(attjobs, pj)]
 
-DPrepare(e, d, hold) ==
-    LET a == attjobs \cup {s \in d : s >= now}
+\* w: the node keeps the duties request of the Prepare step's scheduling pass back
+DPrepare(e, d, hold, w) ==
+    LET a == IF w THEN attjobs ELSE attjobs \cup {s \in d : s >= now}
         pj == prepjobs \ {e}
     IN [Cur EXCEPT !.attjobs = a, !.prepjobs = pj, !.pend = pend \cup (a \ attjobs),
                    !.subs = IF hold THEN subs ELSE subs \cup {e}, !.njobs = Count(a, pj)]
@@ -389,11 +429,18 @@ DHead(F, D, split) ==
                    !.records = IF verify THEN Clean(records, now) ELSE records,
                    !.njobs = Count(a, prepjobs)]
 
-\* r = [e, cur, d]: refresh of epoch e under way, cur = the current slot's job was cancelled, d = new duties
+\* r = [e, n, cur, d]: scheduling pass n of epoch e under way, cur = it may set up the current slot's job (a
+\* refresh that cancelled it; a Prepare pass), d = the duties the node answers with.  The pass notes every slot it
+\* asks a job for, then asks: ok for the slots that have no job, "exists" for those whose job another pass for
+\* this epoch has set up since - the job is there either way and relies on the same note.
+\* "schederr": the pass takes its note back when the answer is "exists" (reads like tidying up after a failure).
 DResched(r) ==
     LET added == {s \in r.d : s > now \/ (s = now /\ r.cur)}
+        exists == added \cap attjobs
         a == attjobs \cup added
-    IN [Cur EXCEPT !.attjobs = a, !.pend = pend \cup added, !.njobs = Count(a, prepjobs)]
+    IN [Cur EXCEPT !.attjobs = a,
+                   !.pend = IF Mode = "schederr" THEN (pend \cup added) \ exists ELSE pend \cup added,
+                   !.njobs = Count(a, prepjobs)]
 
 DAttStart(s) ==
     [Cur EXCEPT !.attjobs = attjobs \ {s}, !.attested = attested \cup {Epoch(s)},
@@ -440,7 +487,7 @@ HasAtt == env.fam \in {"att", "all"}
 HasSync == env.fam \in {"sync", "all"}
 Duties(e) == IF HasAtt THEN {{First(e) + o : o \in m} : m \in Menu} ELSE {{}}
 
-Env0 == [ticked |-> -1, did |-> {}, headE |-> FALSE, attE |-> FALSE, okE |-> FALSE, hgap |-> 0, fgap |-> 0,
+Env0 == [ticked |-> -1, did |-> {}, heads |-> 0, headE |-> FALSE, attE |-> FALSE, okE |-> FALSE, hgap |-> 0, fgap |-> 0,
          fam |-> "all", okrun |-> {}, refr |-> {}, mood |-> "reorg", reorgs |-> 0,
          msgdue |-> {}, aucdue |-> {}, subdue |-> {}, attdue |-> {}, aggdue |-> {},
          rmark |-> 0, bmark |-> 0, smark |-> 0]
@@ -458,7 +505,7 @@ Init ==
     /\ up = FALSE
     /\ attjobs = {} /\ prepjobs = {} /\ running = {} /\ pend = {} /\ attested = {} /\ subs = {}
     /\ roots = {} /\ records = {} /\ bids = {} /\ njobs = 0
-    /\ msgrun = {} /\ aucrun = {} /\ subrun = {}
+    /\ msgrun = {} /\ aucrun = {} /\ subrun = {} /\ passes = {}
     /\ env \in {[Env0 EXCEPT !.fam = f] : f \in Fams}
     /\ IF HasSync THEN verify \in BOOLEAN /\ aggmode \in {"never", "third", "always"}
        ELSE verify = FALSE /\ aggmode = "never"
@@ -467,11 +514,21 @@ Did(x) == env' = [env EXCEPT !.did = @ \cup {x}]
 
 DutyMap(d0, d1) == [e \in {Epoch(now), Epoch(now) + 1} |-> IF e = Epoch(now) THEN d0 ELSE d1]
 
-NStart(d0, d1) ==
+\* the passes of epoch e that are under way, and the number a new one gets
+PassesOf(e) == {r \in env.refr : r.e = e}
+FreeN(e) == CHOOSE n \in 1..(Cardinality(PassesOf(e)) + 1) : \A r \in PassesOf(e) : r.n # n
+MayPass(e) == Cardinality(PassesOf(e)) < MaxPasses
+Pass(e, cur, d) == [e |-> e, n |-> FreeN(e), cur |-> cur, d |-> d]
+Ids(R) == {[e |-> r.e, n |-> r.n] : r \in R}
+
+\* start-up: scheduleAttestations(e, notCurrentSlot) and scheduleAttestations(e + 1)
+NStart(d0, d1, split) ==
     /\ env.fam # "bids"
     /\ d0 \in Duties(Epoch(now)) /\ d1 \in Duties(Epoch(now) + 1)
-    /\ Start({Epoch(now), Epoch(now) + 1}, DStart(DutyMap(d0, d1)))
-    /\ env' = [env EXCEPT !.ticked = Epoch(now), !.smark = Epoch(now)]
+    /\ split \in BOOLEAN /\ (split => ("start" \in HoldKinds /\ HasAtt))
+    /\ LET R == IF split THEN {Pass(Epoch(now), FALSE, d0), Pass(Epoch(now) + 1, FALSE, d1)} ELSE {} IN
+       /\ Start({Epoch(now), Epoch(now) + 1}, Ids(R), DStart(DutyMap(d0, d1), split))
+       /\ env' = [env EXCEPT !.ticked = Epoch(now), !.smark = Epoch(now), !.refr = @ \cup R]
 
 NTick ==
     /\ up /\ now = First(Epoch(now)) /\ env.ticked < Epoch(now)
@@ -481,14 +538,19 @@ NTick ==
 PrepDue == (Epoch(now) + 1) \in prepjobs /\ now >= First(Epoch(now)) + (P \div 2)
 
 \* k = the node completes the beacon committee subscription of the epoch k slots later (0: within the step)
-NPrepare(d, k) ==
+\* w: the node keeps the duties request of the step's scheduling pass back (scheduleAttestations(e + 1, FALSE))
+NPrepare(d, k, w) ==
     /\ up /\ PrepDue
     /\ d \in Duties(Epoch(now) + 1)
     /\ MayHold(env.subdue, k, IF HasAtt THEN SubLates ELSE {0})
     /\ (Epoch(now) + 1) \notin subrun
-    /\ Prepare(Epoch(now) + 1, TRUE, {Epoch(now) + 1}, IF k > 0 THEN {Epoch(now) + 1} ELSE {},
-               DPrepare(Epoch(now) + 1, d, k > 0))
-    /\ env' = [env EXCEPT !.subdue = IF k > 0 THEN @ \cup {[s |-> Epoch(now) + 1, at |-> now + k]} ELSE @]
+    /\ w \in BOOLEAN /\ (w => ("prepare" \in HoldKinds /\ HasAtt))
+    /\ MayPass(Epoch(now) + 1)
+    /\ LET R == IF w THEN {Pass(Epoch(now) + 1, TRUE, d)} ELSE {} IN
+       /\ Prepare(Epoch(now) + 1, TRUE, {Epoch(now) + 1}, IF k > 0 THEN {Epoch(now) + 1} ELSE {}, Ids(R),
+                  DPrepare(Epoch(now) + 1, d, k > 0, w))
+       /\ env' = [env EXCEPT !.subdue = IF k > 0 THEN @ \cup {[s |-> Epoch(now) + 1, at |-> now + k]} ELSE @,
+                             !.refr = @ \cup R]
 
 NSubEnd(r) ==
     /\ up /\ r \in DueNow(env.subdue)
@@ -498,30 +560,32 @@ NSubEnd(r) ==
 \* F = epochs whose duties the head event makes the controller refresh (their dependent root changed);
 \* d0 / d1 = the new duties of the current / next epoch (empty when not refreshed)
 NHead(F, d0, d1, split) ==
-    /\ up /\ "head" \notin env.did
+    /\ up /\ env.heads < MaxHeads
     /\ env.mood # "quiet"
     /\ F \in SUBSET {Epoch(now), Epoch(now) + 1}
     /\ F # {} => (env.mood = "reorg" /\ env.reorgs < MaxReorgs)
-    /\ split \in BOOLEAN /\ (split => (F # {} /\ HasAtt))
+    /\ split \in BOOLEAN /\ (split => (F # {} /\ HasAtt /\ "refresh" \in HoldKinds))
     /\ ~HasAtt => F = {}                         \* no duties, nothing to refresh
-    /\ \A r \in env.refr : r.e \notin F
+    \* the refresh starts a scheduling pass of its own, next to those of its epoch that are under way (an earlier
+    \* refresh, the start-up or Prepare pass, whose duties request the node has not answered yet)
+    /\ \A e \in F : MayPass(e)
     \* the next epoch is refreshed only when it has been prepared (this epoch's tick has set up its prepare job
     \* and that job has run), and - as the code notices a change of the current dependent root only on a head
     \* event that is not the first of its epoch - after an earlier head event of this epoch
     /\ (Epoch(now) + 1) \in F => ((Epoch(now) + 1) \notin prepjobs /\ env.ticked = Epoch(now) /\ env.headE)
     /\ d0 \in Duties(Epoch(now)) /\ d1 \in Duties(Epoch(now) + 1)
     /\ (Epoch(now) \notin F => d0 = {}) /\ ((Epoch(now) + 1) \notin F => d1 = {})   \* canonical
-    /\ HeadEvent(F, DHead(F, DutyMap(d0, d1), split))
-    /\ env' = [env EXCEPT !.did = @ \cup {"head"}, !.headE = TRUE, !.reorgs = IF F = {} THEN @ ELSE @ + 1,
-                          !.smark = IF @ + 1 < Epoch(now) THEN Epoch(now) - 1 ELSE @,
-                          !.refr = IF split
-                                     THEN @ \cup {[e |-> e, cur |-> (e = Epoch(now) /\ now \in attjobs),
-                                                   d |-> DutyMap(d0, d1)[e]] : e \in F}
-                                     ELSE @]
+    /\ LET R == IF split THEN {Pass(e, e = Epoch(now) /\ now \in attjobs, DutyMap(d0, d1)[e]) : e \in F} ELSE {} IN
+       /\ HeadEvent(F, Ids(R), DHead(F, DutyMap(d0, d1), split))
+       /\ env' = [env EXCEPT !.did = @ \cup {"head"}, !.heads = @ + 1, !.headE = TRUE,
+                             !.reorgs = IF F = {} THEN @ ELSE @ + 1,
+                             !.smark = IF @ + 1 < Epoch(now) THEN Epoch(now) - 1 ELSE @,
+                             !.refr = @ \cup R]
 
-NResched(r) ==
+\* the node answers the duties request of pass r - in any order among the passes that are under way
+NPassEnd(r) ==
     /\ up /\ r \in env.refr
-    /\ Resched({r.e}, DResched(r))
+    /\ PassEnd([e |-> r.e, n |-> r.n], DResched(r))
     /\ env' = [env EXCEPT !.refr = @ \ {r}]
 
 \* k = 0: the job ends in its slot or (within its epoch) in the next; k > 0: the node keeps the attestation
@@ -588,7 +652,7 @@ SlotDone ==
     /\ (now = First(Epoch(now))) => env.ticked = Epoch(now)
 
 \* nothing is under way (the end of a generated behaviour)
-AtRest == running = {} /\ msgrun = {} /\ aucrun = {} /\ subrun = {}
+AtRest == running = {} /\ msgrun = {} /\ aucrun = {} /\ subrun = {} /\ passes = {}
 
 NAdvance ==
     /\ now < MaxSlot
@@ -596,13 +660,13 @@ NAdvance ==
     /\ env.fam = "bids" => DueNow(env.aucdue) = {}
     /\ Advance(Cur)
     /\ IF Epoch(now + 1) = Epoch(now)
-         THEN env' = [env EXCEPT !.did = {}]
+         THEN env' = [env EXCEPT !.did = {}, !.heads = 0]
          ELSE \E m \in Moods :
               LET hg == IF env.headE THEN 0 ELSE env.hgap + 1 IN
               /\ env.fam # "bids" => (env.headE \/ env.hgap < G)             \* Env_OutageBounded
               /\ (m = "quiet" /\ env.fam # "bids") => hg < G
               /\ env.fam = "bids" => m = "plain"
-              /\ env' = [env EXCEPT !.did = {}, !.headE = FALSE, !.attE = FALSE, !.okE = FALSE,
+              /\ env' = [env EXCEPT !.did = {}, !.heads = 0, !.headE = FALSE, !.attE = FALSE, !.okE = FALSE,
                                     !.hgap = hg, !.mood = m, !.reorgs = 0,
                                     !.fgap = IF env.attE /\ ~env.okE THEN @ + 1 ELSE IF env.okE THEN 0 ELSE @]
 
@@ -620,13 +684,13 @@ NAucEnd(r) ==
 AllDuties == {{First(e) + o : o \in m} : m \in Menu, e \in {Epoch(now), Epoch(now) + 1}} \cup {{}}
 
 Next ==
-    \/ \E d0, d1 \in AllDuties : NStart(d0, d1)
+    \/ \E d0, d1 \in AllDuties : \E split \in BOOLEAN : NStart(d0, d1, split)
     \/ NTick
-    \/ \E d \in AllDuties : \E k \in SubLates : NPrepare(d, k)
+    \/ \E d \in AllDuties : \E k \in SubLates : \E w \in BOOLEAN : NPrepare(d, k, w)
     \/ \E r \in env.subdue : NSubEnd(r)
     \/ \E F \in SUBSET {Epoch(now), Epoch(now) + 1} : \E d0, d1 \in AllDuties : \E split \in BOOLEAN :
          NHead(F, d0, d1, split)
-    \/ \E r \in env.refr : NResched(r)
+    \/ \E r \in env.refr : NPassEnd(r)
     \/ \E ok \in BOOLEAN : \E k \in AttLates : NAttStart(ok, k)
     \/ \E s \in running : NAttEnd(s)
     \/ NProbe
@@ -653,6 +717,12 @@ NeverTwoRunning == Cardinality(running) < 2
 NeverLateRoot == ~(\E s \in roots : s + P < now /\ now \in roots)
 NeverLateBid == ~(\E s \in bids : s + BidKeep < now /\ now \in bids)
 NeverLateSub == ~(\E e \in subs : e + 1 < Epoch(now) /\ env.headE /\ "head" \in env.did)
+\* overlapping scheduling passes: two passes for one epoch under way at once; a pass about to end whose slot's
+\* job another pass has set up (its ScheduleJob will be answered "exists"); the start-up / Prepare pass still
+\* under way next to a refresh's pass
+NeverPassOverlap == ~(\E r1, r2 \in env.refr : r1.e = r2.e /\ r1.n # r2.n)
+NeverExists == ~(\E r \in env.refr : \E s \in r.d \cap attjobs : s > now \/ (s = now /\ r.cur))
+NeverExistsRunning == ~(\E r \in env.refr : running # {} /\ \E s \in r.d \cap attjobs : s > now)
 \* two calls of neighbouring slots under way at once (either may be answered first)
 NeverTwoMessages == Cardinality(msgrun) < 2
 =============================================================================
